@@ -13,7 +13,9 @@ THEOREMS = ["Mistune.escape_roundtrip", "Mistune.escape_no_specials", "Mistune.e
 
 LINE_BITS = ["alpha", "beta gamma", "&amp; &lt; &#35;", "\\* \\` \\\\", "<b>html</b>", "*em* **st** `c`", "[l](u) ![i](s)", "    deep", "  two", "x  ", "# not heading",
              "> not quote", "- not list", "1. no", "***", "---", "===", "| a | b |", "é ß 日本", "\\", "$m$ ~~s~~", "<!-- c -->", "&", "``", "`", "~~", "~", "a\tb", "http://u.v",
-             "[foo]: /u", "{note}", ".. x::", ":::"]
+             "[foo]: /u", "{note}", ".. x::", ":::",
+             # characters str.splitlines() treats as line ends although Markdown does not (only LF, CR, CRLF end a line)
+             "x = 1;\x0cy = 2", "a\x0bb", "a\x1cb", "a\x1db", "a\x1eb", "a\x85b", "a\u2028b", "a\u2029b", "\x0c", "end\x85"]
 
 
 def body_lines(rng, c, n, allow_blank=True, allow_lead_tab=True):
@@ -114,7 +116,7 @@ def span_case(rng):
             m = rng.choice([k for k in (1, 2, 3, 4) if k != n])
             parts.append("`" * m)
         else:
-            parts.append(rng.choice(["a", " b ", "&amp;", "\\", "*x*", "<i>", " ", "  ", "\n", "c\nd", "[l](u)", "$"]))
+            parts.append(rng.choice(["a", " b ", "&amp;", "\\", "*x*", "<i>", " ", "  ", "\n", "c\nd", "[l](u)", "$", "p\x0cq", "p\u2028q", "p\x85q", "p\x1cq", "   "]))
     x = "x".join(parts) if rng.random() < 0.5 else "".join(parts)
     # content must neither start nor end with a backtick, nor contain a run of exactly n backticks
     x = (x.strip("`").rstrip("\n").replace("\n`", "\n'")) or "q"
